@@ -69,6 +69,10 @@ def _registry(prop):
             if os.path.exists(patch):
                 v = Variant(prop, "refactor-%s" % tid, [], expect=None, why="behaviour-preserving refactoring written without knowledge of the checks")
                 v.patch = (patch, False)
+                ka = os.path.join(tdir, tid, "known_alarms.json")
+                if os.path.exists(ka):
+                    import json
+                    v.known_alarms = json.load(open(ka)).get(prop, [])      # documented false alarms of the machinery (DESIGN 8.6h)
                 out.append(v)
     # mechanical whole-package transformations (tools/mech_twins.py): silent under every property
     for kind in ("alpha", "swap", "ifexp", "elif", "comp", "hoist", "all", "guard", "unguard", "splitand", "all2"):
@@ -130,6 +134,8 @@ def _run_variant(args):
             runner.run_checks(prop, prog, run)
         except model.AnalysisError as e:
             if variant.expect is None:
+                if any(rid in str(e) for rid in getattr(variant, "known_alarms", ())):
+                    return (name, "known-false-alarm", "analysis refuses this refactoring (documented limitation): %s" % str(e)[:120])
                 return (name, "problem", "benign twin made the analysis fail: %s" % e)
             return (name, "detected-as-analysis-error", str(e))
         except Exception as e:      # an internal error of a checker is a defect of the machinery, whatever the variant
@@ -139,6 +145,9 @@ def _run_variant(args):
         new = idents - set(base_idents)
         if variant.expect is None:
             if new:
+                ka = getattr(variant, "known_alarms", ())
+                if ka and all(any(i.startswith(rid + "|") for rid in ka) for i in new):
+                    return (name, "known-false-alarm", "documented limitation: %s" % sorted(new)[:3])
                 return (name, "problem", "benign twin raised: %s" % sorted(new))
             return (name, "silent", "")
         hit = [i for i in new if i.startswith(variant.expect + "|") or (variant.expect.endswith(".") and i.startswith(variant.expect))]
@@ -166,6 +175,7 @@ def run_for(prop, root, base_run, jobs=None):
         "detected": sum(1 for r in results if r[1].startswith("detected")),
         "silent_twins": sum(1 for r in results if r[1] == "silent"),
         "skipped": sum(1 for r in results if r[1] == "skipped"),
+        "known_false_alarms": sum(1 for r in results if r[1] == "known-false-alarm"),
         "results": [{"variant": n, "status": st, "detail": d} for n, st, d in results],
     }
     return problems
